@@ -165,12 +165,8 @@ func (c *Ctx) ruleR02ab(ra, rb string) {
 			good := false
 			var seenK []string
 			for _, cd := range ssax.DominatingConds(cl.Block()) {
-				count, k, isC := curtailCond(cd.Val, P)
+				k, isC := c.curtailTest(m.Fn, cd.Val, L, P, idx)
 				if !isC {
-					continue
-				}
-				get, isGet := isStaticMethod(count, "data", "IntMap", "Get")
-				if !isGet || len(get.Call.Args) != 2 || get.Call.Args[0] != L || !sameSource(get.Call.Args[1], idx) {
 					continue
 				}
 				seenK = append(seenK, fmt.Sprintf("K=%d truth=%v", k, cd.Truth))
@@ -405,4 +401,52 @@ func callDescShort(c *Ctx, call ssa.CallInstruction) string {
 		return c.name(sc)
 	}
 	return "call " + cc.Value.Name()
+}
+
+// curtailTest recognises count(idx) > Remaining(pos)+K, written in fn itself or in a bool helper called with fn's
+// own context, position and receiver. Returns K.
+func (c *Ctx) curtailTest(fn *ssa.Function, cond ssa.Value, L, P *ssa.Parameter, idx ssa.Value) (int64, bool) {
+	check := func(cond ssa.Value, l, p ssa.Value, sameIdx func(ssa.Value) bool) (int64, bool) {
+		count, k, isC := curtailCond(cond, p)
+		if !isC {
+			return 0, false
+		}
+		get, isGet := isStaticMethod(count, "data", "IntMap", "Get")
+		if !isGet || len(get.Call.Args) != 2 || get.Call.Args[0] != l || !sameIdx(get.Call.Args[1]) {
+			return 0, false
+		}
+		return k, true
+	}
+	if k, ok := check(cond, L, P, func(v ssa.Value) bool { return sameSource(v, idx) }); ok {
+		return k, true
+	}
+	h, inner, args, ok := c.boolHelper(cond)
+	if !ok {
+		return 0, false
+	}
+	var hl, hp ssa.Value
+	recvOK := h.Signature.Recv() == nil
+	for prm, a := range args {
+		switch {
+		case a == ssa.Value(L):
+			hl = prm
+		case a == ssa.Value(P):
+			hp = prm
+		}
+		if h.Signature.Recv() != nil && prm == ssa.Value(h.Params[0]) && isRecvValue(fn, a) {
+			recvOK = true
+		}
+	}
+	if hl == nil || hp == nil {
+		return 0, false
+	}
+	want := keyDesc(idx)
+	return check(inner, hl, hp, func(v ssa.Value) bool {
+		d := keyDesc(v)
+		if d == "" || d != want {
+			return false
+		}
+		// a receiver field means the same thing in the helper only if the helper runs on the same receiver
+		return !strings.HasPrefix(strings.TrimPrefix(d, "conv:"), "recv.") || recvOK
+	})
 }
